@@ -93,6 +93,55 @@ theorem provenance_exact {as : List Adm} {g : Graph} (hw : ∀ a ∈ as, a.WF) (
 
 example : mergeAll Graph.empty [exSite, exNet] ≠ none ∧ contributors [exSite, exNet] "port" = ["adm-site", "adm-net"] := by decide
 
+/-! ## delegation ids that coincide with graph ids: re-keying ignores the inner id and is idempotent -/
+
+/-- The name a delegation has INSIDE its model plays no role: re-keying to `aid` gives the same entry whatever the old id was -
+in particular when the old id already IS `aid` (a model that was re-keyed before, or whose aggregate named its delegations
+after the delegation graph) the entry is kept, not dropped. -/
+theorem rekey_ignores_inner_id (aid k k' d : String) :
+    (Deleg.dict [(k, d)]).rekey aid = .ok (.dict [(aid, d)]) ∧ (Deleg.dict [(k, d)]).rekey aid = (Deleg.dict [(k', d)]).rekey aid ∧
+    (Deleg.dict [(aid, d)]).rekey aid = .ok (.dict [(aid, d)]) := ⟨rfl, rfl, rfl⟩
+
+/-- `rewrite_delegations` is idempotent on a delegation property: what it returns is a fixed point. -/
+theorem rekey_idempotent (aid : String) (x y : Deleg) (h : x.rekey aid = .ok y) : y.rekey aid = .ok y := by
+  cases x with
+  | absent => simp [Deleg.rekey] at h; subst h; rfl
+  | emptied => simp [Deleg.rekey] at h
+  | dict l =>
+    match l, h with
+    | [(k, d)], h => simp [Deleg.rekey] at h; subst h; rfl
+    | [], h => simp [Deleg.rekey] at h
+    | _ :: _ :: _, h => simp [Deleg.rekey] at h
+
+/-- ... and on a whole node / model: stamping a stamped model again with the same id changes nothing. -/
+theorem stampNode_idempotent (aid : String) (n m : Node) (h : stampNode aid n = .ok m) : stampNode aid m = .ok m := by
+  unfold stampNode at h
+  split at h
+  · cases h
+  · rename_i ld hl
+    split at h
+    · cases h
+    · rename_i cd hc
+      cases h
+      simp [stampNode, rekey_idempotent aid _ _ hl, rekey_idempotent aid _ _ hc]
+
+/-- `rewrite_delegations(real_adm_id)` + provenance stamp on a whole model (the temporary clone of `merge_adm`): a model that was
+stamped with its id before is left exactly as it is - nothing is lost when old and new delegation ids coincide. -/
+theorem stampAll_idempotent (aid : String) : ∀ (l m : List Node), stampAll aid l = .ok m → stampAll aid m = .ok m
+  | [], m, h => by simp [stampAll] at h; subst h; rfl
+  | n :: rest, m, h => by
+    unfold stampAll at h
+    split at h
+    · cases h
+    · rename_i n' hn
+      split at h
+      · cases h
+      · rename_i l' hl
+        cases h
+        simp [stampAll, stampNode_idempotent aid n n' hn, stampAll_idempotent aid rest l' hl]
+
+example : (Deleg.dict [("adm-1", "cap")]).rekey "adm-1" = .ok (.dict [("adm-1", "cap")]) := rfl
+
 /-! ## delegations are keyed by the contributing model's id -/
 
 /-- Every delegation in a model built by merges is a single entry keyed by the graph id of a merged model that
